@@ -281,6 +281,11 @@ def _isinstance(v, names):
 # calls with a fixed, library-independent meaning are interpreted; everything else stays uninterpreted
 INTERPRETED = {
     "isinstance": _isinstance,
+    "numpy.hypot": lambda x, y: np.hypot(_f(x), _f(y)),
+    "numpy.broadcast_to": lambda x, *shape: x,  # element-wise the same values
+    "numpy.square": lambda x: np.square(_f(x)),
+    "numpy.deg2rad": lambda x: np.deg2rad(_f(x)),
+    "numpy.rad2deg": lambda x: np.rad2deg(_f(x)),
     "str.format": lambda fmt, *xs: fmt.format(*xs),
     "str.rstrip": lambda s_, *xs: s_.rstrip(*xs),
     "str.lstrip": lambda s_, *xs: s_.lstrip(*xs),
@@ -356,8 +361,32 @@ def _str_accessor(method, kwnames):
     return f
 
 
+_ALGEBRAIC_LIBRARY = {"numpy.einsum", "numpy.dot", "numpy.inner", "numpy.tensordot", "numpy.matmul", "numpy.outer", "numpy.vdot", "numpy.cross", "numpy.take",
+                      "numpy.take_along_axis", "numpy.choose", "numpy.select", "numpy.linalg.multi_dot", "numpy.kron", "numpy.trace", "numpy.prod", "math.hypot",
+                      "math.dist", "numpy.linalg.det", "numpy.linalg.inv", "scipy.linalg.norm", "math.fsum", "numpy.average", "numpy.nansum", "numpy.nanmean"}
+_ELEMENTWISE_EXTRA = {"isclose": lambda a, b, rtol=1e-05, atol=1e-08, equal_nan=False: np.isclose(_f(a), _f(b), rtol=rtol, atol=atol, equal_nan=bool(equal_nan)),
+                      "nan_to_num": lambda x, *a, **k: np.nan_to_num(_f(x)), "clip": lambda x, lo, hi: np.clip(_f(x), lo, hi),
+                      "round": lambda x, d=0: np.round(_f(x), int(d)), "around": lambda x, d=0: np.round(_f(x), int(d)), "fix": lambda x: np.fix(_f(x)),
+                      "real": lambda x: np.real(x), "sinc": lambda x: np.sinc(_f(x)), "angle": lambda x: np.angle(x)}
+
+
+def _numpy_elementwise(name):
+    """numpy functions that act on each element on its own (ufuncs and a few more): evaluated by numpy itself at the sample points"""
+    if not (isinstance(name, str) and name.startswith("numpy.") and name.count(".") == 1):
+        return None
+    short = name.split(".", 1)[1]
+    if short in _ELEMENTWISE_EXTRA:
+        return _ELEMENTWISE_EXTRA[short]
+    f = getattr(np, short, None)
+    if isinstance(f, np.ufunc):
+        return lambda *xs, _f_=f: _f_(*[_f(x) for x in xs])
+    return None
+
+
 def _interpreted(name):
     f = INTERPRETED.get(name)
+    if f is None:
+        f = _numpy_elementwise(name)
     if f is None and isinstance(name, str) and name.startswith(".str."):
         meth, _, kws = name[5:].partition("[")
         f = _str_accessor(meth, [k for k in kws.rstrip("]").split(",") if k])
@@ -659,6 +688,17 @@ def equivalent(a, b, samplers=None, n=24, tol=1e-7, extra_envs=(), seed_tag="", 
     equality: a predicate on the two evaluated values that must hold at every point)"""
     lattice_only = bool(extra_envs) and n <= len(extra_envs)  # the caller's points (e.g. integer lattice) are the domain
     n = len(extra_envs) if lattice_only else n * N_MULT
+    # a library function without a model is interpreted as an unknown function: that is sound between two occurrences of the same call,
+    # and says nothing when only one side uses it (np.hypot(x, y) against sqrt(x*x + y*y)) -- then the comparison decides nothing
+    if isinstance(a, T) and isinstance(b, T):
+        # ... for the functions that can well be another spelling of a closed form (products and contractions, gathers, re-wrappings); a
+        # function that restructures its input (cumsum, repeat, tile, split, sort) stays an unknown function: it differs from the closed form
+        lib = lambda t_: {str(n_.args[0]) for n_ in walk(t_) if n_.op == "call" and isinstance(n_.args[0], str) and _interpreted(n_.args[0]) is None
+                          and str(n_.args[0]) in _ALGEBRAIC_LIBRARY}
+        la_, lb_ = lib(a), lib(b)
+        if la_ ^ lb_:
+            from .values import Unsupported
+            raise Unsupported(f"the library function {sorted(la_ ^ lb_)[0]} has no model in the term evaluator and occurs on one side of the comparison only: not decided")
     names = symbols(a, b)
     rng = np.random.default_rng([SEED, int(hashlib.md5(("eq" + seed_tag).encode()).hexdigest()[:8], 16)])
     good = 0
